@@ -114,10 +114,13 @@ impl<'a> SpannedDiagnosticFormatter<'a> {
             let span_offset_from_start = span.start() - line_start_byte;
 
             // An underline bounded by the current line.
+            // (If the span starts in the line's terminator there is nothing on this line to
+            // underline.)
             let underline_span = Span::new(
                 span.start(),
-                span.end()
-                    .min(span.start() + (source_line.len() - span_offset_from_start)),
+                span.end().min(
+                    span.start() + source_line.len().saturating_sub(span_offset_from_start),
+                ),
             );
             let (line_num, _) = self
                 .nlc()
@@ -147,9 +150,15 @@ impl<'a> SpannedDiagnosticFormatter<'a> {
                 // If we're at the end print the message.
                 out.push_str(&format!(" {}", s));
             } else {
-                // Otherwise set next span to start at the beginning of the next line.
+                // Otherwise set next span to start at the beginning of the next line. Note that
+                // `lines()` strips both "\n" and "\r\n", so we can't assume the terminator was
+                // one byte long.
                 out.push('\n');
-                span = Span::new(line_start_byte + source_line.len() + 1, span.end())
+                let next_line_start = self.src[line_start_byte..]
+                    .find('\n')
+                    .map(|off| line_start_byte + off + 1)
+                    .unwrap_or(self.src.len());
+                span = Span::new(next_line_start.min(span.end()), span.end())
             }
         }
 
